@@ -1185,12 +1185,10 @@ impl<'ast, 'res> Resolver<'ast, 'res> {
                             Some(ValueType::String)
                         }
                         (ValueType::Number, ValueType::Number) => Some(ValueType::Number),
+                        // A dynamic operand can be a number or a string at run time, so
+                        // the result is only known then.
                         (ValueType::Dynamic, ..) | (.., ValueType::Dynamic) => {
-                            if l == ValueType::Number || r == ValueType::Number {
-                                Some(ValueType::Number)
-                            } else {
-                                Some(ValueType::String)
-                            }
+                            Some(ValueType::Dynamic)
                         }
                         _ => None,
                     },
